@@ -486,8 +486,9 @@ def _mirror_pair(ctx, prog, k, anti):
             if isinstance(x, ast.Compare):
                 x.ops = [MIRROR.get(type(o), type(o))() for o in x.ops]
         return n
-    ta = norm_text(mirror(a.test)) + " : " + "; ".join(norm_text(mirror(x)) for x in a.body)
-    tb = norm_text(b.test) + " : " + "; ".join(norm_text(x) for x in b.body)
+    from ..astutil import oriented
+    ta = norm_text(oriented(mirror(a.test))) + " : " + "; ".join(norm_text(mirror(x)) for x in a.body)
+    tb = norm_text(oriented(b.test)) + " : " + "; ".join(norm_text(x) for x in b.body)
     if ta != tb:
         ctx.violated(k.fi, b, "%s: the two front guards are not mirror images (%s  vs  %s): negating the signal would not "
                      "mirror the result" % (k.fi.name, ta, tb))
@@ -516,7 +517,13 @@ def _mirror_pair(ctx, prog, k, anti):
         return
     ctx.holds(k.fi, a, "%s: front guards (%s / %s) are a mirror pair; all other uses are symmetric" % (k.fi.name, hi, lo))
     # caller feeds argmax to the '>' role and argmin to the '<' role
-    gt_role = hi if isinstance(a.test.ops[0], (ast.Gt, ast.GtE)) else lo
+    # the extreme whose guard fires when the new value EXCEEDS turns[extreme] tracks the maximum (orientation-free)
+    ot = oriented(a.test)                              # L < R
+    in_small = hi in {x.id for x in ast.walk(ot.left) if isinstance(x, ast.Name)}
+    in_big = hi in {x.id for x in ast.walk(ot.comparators[0]) if isinstance(x, ast.Name)}
+    if in_small == in_big:
+        raise AnalysisError("%s: front guard %s not understood" % (k.fi.key, norm_text(a.test)))
+    gt_role = hi if in_small else lo
     lt_role = lo if gt_role == hi else hi
     params = k.fi.params
     callers = 0
